@@ -409,6 +409,29 @@ def fuzz_run(ctx, args, prop_id, timeout=7200):
     raise Infra("fuzz driver died in parallel mode but not single-threaded:\n%s" % (rep.get("stderr_head") or "")[:3000])
 
 
+def bomb_run(ctx):
+    """V: tiny declared sections whose compressed payloads announce enormous decoded sizes, run single-threaded under an
+    address-space limit of 8 GiB: an allocation sized by the payload instead of the declared size kills the process."""
+    cd = ctx.dir("bomb")
+    cur = os.path.join(cd, "current.bin")
+    rep = ctx.vh(["v-serbomb", "-property", "C19", "-crashdir", cd], timeout=1200, allow_fail=True,
+                 env={"GOMAXPROCS": "2", "GOMEMLIMIT": "off"}, aslimit=8 << 30)
+    if not rep.get("failed"):
+        return rep
+    if not os.path.exists(cur):
+        raise Infra("v-serbomb died before its first case (address-space limit too low for the runtime?):\n%s" % (rep.get("stderr_head") or "")[:2000])
+    data = open(cur, "rb").read()
+    head = (rep.get("stderr_head") or "")[:1500]
+    first = head.split("\n")[0][:200]
+    if "out of memory" not in head and "cannot allocate memory" not in head:
+        raise Infra("v-serbomb died for a reason other than an allocation failure:\n%s" % head)
+    # confirm without the limit: how much does the real decoder allocate for these few bytes?
+    ctx.mismatches.append({"property": "C19", "sig": "process-crash:alloc-bomb", "input": data.hex(),
+                           "want": "an error or a traversable result; memory proportional to the declared section sizes (all <= 16 bytes here)",
+                           "got": "the process died under an 8 GiB address-space limit: " + first, "detail": head})
+    return rep
+
+
 @prop("C11")
 def c11(ctx):
     ctx.rule = ("M: Serializer.tla -- DenoteTape(Deser(Ser(tape))) = docs, WellFormed and canonical NOP runs for every tape reachable in Edit.tla "
@@ -439,13 +462,15 @@ def c19(ctx):
                 "accepts is Safe (all pointers in bounds and forward, end tags intact, NOP skips >= 1). G: every stream (also with its "
                 "value stream truncated) is framed as a blob (uncompressed, S2, zstd) and fed to the real Deserialize under recover and a "
                 "watchdog; on success every traversal, lookup, bulk accessor and marshal call is executed. V: every truncation, single-bit "
-                "flip, byte substitution and splices of valid blobs in all four modes (declared sizes > 64 MiB skipped). "
+                "flip, byte substitution and splices of valid blobs in all four modes (declared sizes > 64 MiB skipped); decompression bombs "
+                "(declared sections <= 16 bytes, zstd/S2 payloads announcing 1 GiB .. 2^64-1 bytes) under an 8 GiB address-space limit. "
                 "Non-trivial = the real decoder accepted the stream / the mutation left the framing parseable.")
     q = quick(ctx)
     r = ctx.tlc("SerFuzz", consts={"MaxLen": 3 if q else 4, "MaxTape": 4 if q else 5}, dump="states", label="adversarial streams", timeout=3000)
     fuzz_run(ctx, ["g-serfuzz", "-dump", r["dump"], "-expect", str(r["distinct"]), "-property", "C19"], "C19")
     os.remove(r["dump"])
     fuzz_run(ctx, ["v-serfuzz", "-seed", str(ctx.seed), "-docs", "10" if q else "60", "-property", "C19"], "C19")
+    bomb_run(ctx)
     ctx.exhaustive = True
 
 
